@@ -64,8 +64,10 @@ func (s *TermWriter) goTo(line int) {
 }
 
 func (s *TermWriter) writeAtCursor(text string) {
-	WriteLineNoWrap(os.Stdout, text)
+	// Erase first, then write: after a text that fills the row the cursor of a VT100-style
+	// terminal still sits on the last column, and an erase issued then would blank the last rune
 	if s.ClearLine {
 		eraseRemainingLine()
 	}
+	WriteLineNoWrap(os.Stdout, text)
 }
